@@ -6,6 +6,12 @@
    - [wt] says which values a layout admits;
    - [compile] turns a layout into the canonical decision tree of slice operations, in exactly the shape
      tools/trace_tlb.py reports for the library's hand-written `deserialize` methods.
+   Beyond plain records and tagged unions the language has: Either X Y fields (the encoder is told by a
+   choice function ch which alternative to use), X = Any inline (FRest: the rest of the cell, kept as a
+   cell), dictionaries inline (FHashmap) or kept as the list of their values (FDictVals), the snapshot
+   attribute (t_snap: the object keeps the cell it was parsed from), the exotic-cell test (t_special), tags
+   read in pieces (TagChunks) or only looked at (TagPeek).  A value may depend on what FOLLOWS it in its cell (FRest, t_snap): [wt] takes that tail as a
+   context (ctx).
    Definitions only.  The theorem relating them is Proofs/TlbProofs.v (compile_correct). *)
 From Coq Require Import NArith ZArith List Bool String Ascii.
 From PTQ Require Import Base.Result Base.Bytes Base.Bits Model.Cell Model.Builder Model.Hashmap Model.Dtree
@@ -42,11 +48,33 @@ Inductive fty :=
 | FRefType (T : string) (args : list Z) (* ^T *)
 | FMaybe (f : fty)                      (* Maybe X: presence bit (load_bit), then X *)
 | FDict (n : nat) (v : fty)             (* HashmapE n V, load_dict: None when empty, else a dict *)
-| FConst (c : cval).                    (* no bits: True, Unit (dictionary values) *)
+| FConst (c : cval)                     (* no bits: True, Unit (dictionary values) *)
+| FEither (l r : fty)                   (* Either X Y: a bit (load_bit), then X (0) or Y (1); both kept under the
+                                           same attribute, so the encoder is told which one to use (choice) *)
+| FRest                                 (* X = Any, inline: what remains of the cell, kept as a cell (to_cell);
+                                           nothing is consumed: the value IS what follows *)
+| FHashmap (n : nat) (v : fty)          (* Hashmap n V, inline (never empty), HashMap.parse on the slice itself *)
+| FDictVals (n : nat) (v : fty)         (* HashmapE n V kept as the list of its values in key order
+                                           (sorted(dict.items())); [] when empty; keys 0 .. len-1 *)
+| FAugDict (n : nat) (v x : fty)        (* HashmapAug n V X, inline (never empty), load_hashmap_aug: the pair
+                                           (dict, extras): the extras of all nodes in the order parse_aug
+                                           visits them (left subtree, right subtree, the fork itself) *)
+| FAugDictE (n : nat) (v x : fty).      (* HashmapAugE n V X, load_hashmap_aug_e: compiled only; no value is well
+                                           typed (the library never reads the top-level extra:Y) *)
 
 (* how a run of constant bits is read before it is compared *)
-Inductive chunk := CkBits (n : nat) | CkUint (n : nat) | CkBytes (k : nat).
-Inductive tagmode := TagBitwise | TagChunk (c : chunk).
+Inductive chunk := CkBits (n : nat) | CkUint (n : nat) | CkBytes (k : nat) | CkBit.
+(* how the constructor tag is read:
+   - TagBitwise: one load_bit per tested bit;
+   - TagChunk c: the whole tag at once;
+   - TagChunks cs: in several pieces (load_bits(3) then load_bit(), load_bits(3) then load_bits(2)); a piece
+     is loaded as soon as no remaining constructor can be recognised without it;
+   - TagPeek: the tag is only looked at (preload_bits) and left to the parser of the type the
+     constructor stands for (_ X = T with the tag of X written in front), constructor after constructor,
+     the last one being the default. *)
+Inductive tagmode := TagBitwise | TagChunk (c : chunk) | TagChunks (cs : list chunk) | TagPeek.
+(* what deserialize does with an exotic (pruned) cell before anything is read *)
+Inductive special := SpNo | SpNone (* returns None *) | SpCell (* returns the cell *).
 
 (* operands of a constraint { a <= b }: an integer field bound earlier in the constructor, or a literal *)
 Inductive gref := GName (nm : string) | GNum (z : Z).
@@ -61,10 +89,15 @@ Inductive item :=
 Inductive cret :=
 | RObj (cls : string) (consts : list (string * cval))
 | RNone                                          (* the constructor is represented by None *)
-| RSame.                                         (* _ X = T: the value of the only field is returned *)
+| RSame                                          (* _ X = T: the value of the only field is returned *)
+| RSameCls (cls : string).                       (* the same, for a type with several such constructors: this one
+                                                    is the constructor of the values of class cls *)
 
 Record ctor := mkCtor { c_tag : list bool; c_ret : cret; c_items : list item }.
-Record tlayout := mkType { t_mode : tagmode; t_ctors : list ctor }.
+(* t_snap: the attribute under which the object keeps the cell it was parsed from (cell_slice.to_cell()
+   taken before anything is read) *)
+Record tlayout := mkLayout { t_mode : tagmode; t_ctors : list ctor; t_snap : option string; t_special : special }.
+Definition mkType (m : tagmode) (cs : list ctor) : tlayout := mkLayout m cs None SpNo.
 
 Definition stable := list (string * list Z * tlayout).
 Fixpoint slookup (t : stable) (name : string) (args : list Z) : option tlayout :=
@@ -141,8 +174,9 @@ Definition item_names (it : item) : list string :=
   | IGuard _ _ _ => []
   end.
 Definition items_names (its : list item) : list string := flat_map item_names its.
-Definition ctor_names (consts : list (string * cval)) (its : list item) : list string :=
-  sort_names (map fst consts ++ items_names its).
+Definition snap_names (snap : option string) : list string := match snap with Some nm => [nm] | None => [] end.
+Definition ctor_names (consts : list (string * cval)) (snap : option string) (its : list item) : list string :=
+  sort_names (map fst consts ++ snap_names snap ++ items_names its).
 
 (* which constructor a value belongs to: class name and constant attributes *)
 Definition ctor_matches (c : ctor) (v : pv) : bool :=
@@ -151,11 +185,12 @@ Definition ctor_matches (c : ctor) (v : pv) : bool :=
   | RObj cls consts, PObj cls' fs =>
       String.eqb cls cls' && forallb (fun '(nm, cv) => cval_matchb cv (assoc nm fs)) consts
   | RSame, _ => true
+  | RSameCls cls, PObj cls' _ => String.eqb cls cls'
   | _, _ => false
   end.
 (* where the constructor's fields are found in its value *)
 Definition ctor_look (c : ctor) (v : pv) : string -> pv :=
-  match c_ret c with RSame => fun _ => v | _ => field_of v end.
+  match c_ret c with RSame | RSameCls _ => fun _ => v | _ => field_of v end.
 
 (* int(x) as the comparisons of the tracer see it *)
 Definition numof (v : pv) : Z := match v with PInt z => z | PBool true => 1 | _ => 0 end.
@@ -175,9 +210,64 @@ Definition ok_bits (l : list bool) : enc_res := Ok (l, []).
 Definition enc_var (m : nat) (len : Z) (z : Z) : list bool :=
   enc (lt_bits m) len ++ enc (Z.to_nat (8 * len)) z.
 
+(* the canonical Patricia tree (Spec/Hashmap.v) of n-bit keys and encoded values, with the reference label
+   kinds; every cell of it must respect the capacity limits *)
+Definition dict_tree (n : nat) (src : kvs) : result vtree :=
+  match s_patricia (S n) src with
+  | Some e => let t := canon_kinds (canon_vtree e) n in if vtree_ok t n then Ok t else Err ECell
+  | None => Err EDict
+  end.
+Definition enc_kvs (n : nat) (encv : pv -> enc_res) (l : list (Z * pv)) : result kvs :=
+  mapM (fun kv => rmap (fun p => (enc n (fst kv), p)) (encv (snd kv))) l.
+(* the keys of a dictionary kept as a list: 0, 1, 2, ... *)
+Fixpoint index_kvs (i : nat) (l : list pv) : list (Z * pv) :=
+  match l with [] => [] | v :: r => (Z.of_nat i, v) :: index_kvs (S i) r end.
+
+(* HashmapAug: ahm_edge label node; ahmn_leaf extra:Y value:X; ahmn_fork left:^.. right:^.. extra:Y.
+   The cell of an edge of the Patricia tree e at remaining key length m, the extras (already encoded) being
+   taken from the list fx in visiting order; what is left of the list.  Every cell must respect the limits. *)
+Definition cell_fits (bits : list bool) (refs : list cell) : bool :=
+  (List.length bits <=? 1023)%nat && (List.length refs <=? 4)%nat.
+Fixpoint aug_cell (e : hedge) (m : nat) (fx : list payload) : option (cell * list payload) :=
+  match e with
+  | HEdge l (HLeaf v) =>
+      match fx with
+      | x :: fx' =>
+          let bits := s_label_bits (s_label_kind l m) l m ++ fst x ++ fst v in
+          let refs := snd x ++ snd v in
+          if cell_fits bits refs then Some (Cell ty_ordinary bits refs, fx') else None
+      | [] => None
+      end
+  | HEdge l (HFork a b) =>
+      let m1 := (m - List.length l - 1)%nat in
+      match aug_cell a m1 fx with
+      | Some (ca, fx1) =>
+          match aug_cell b m1 fx1 with
+          | Some (cb, fx2) =>
+              match fx2 with
+              | x :: fx3 =>
+                  let bits := s_label_bits (s_label_kind l m) l m ++ fst x in
+                  let refs := ca :: cb :: snd x in
+                  if cell_fits bits refs then Some (Cell ty_ordinary bits refs, fx3) else None
+              | [] => None
+              end
+          | None => None
+          end
+      | None => None
+      end
+  end.
+
+(* what follows a value in its cell, when that matters to the value (FRest): bits and references *)
+Definition tail := (list bool * list cell)%type.
+Definition no_tail : tail := ([], []).
+
 Section Enc.
+  (* Either X Y: which alternative a value is stored with (true: the right one) *)
+  Variable ch : pv -> bool.
   (* the encoder of named types (ties the knot through the table) *)
   Variable ety : string -> list Z -> pv -> enc_res.
+  (* the inline remainder (FRest) of a value of a named type: it is part of the cell of ^T *)
+  Variable rty : string -> list Z -> pv -> tail.
 
   Fixpoint enc_field (f : fty) (x : pv) : enc_res :=
     match f with
@@ -197,29 +287,61 @@ Section Enc.
     | FMaybeCell =>
         match x with PNone => ok_bits [false] | PCell c => Ok ([true], [c]) | _ => Err EType end
     | FType T a => ety T a x
-    | FRefType T a => bind (ety T a x) (fun '(b, r) => Ok ([], [Cell ty_ordinary b r]))
+    | FRefType T a =>
+        (* the cell of ^T: the encoding of the value, then its inline remainder if it has one *)
+        bind (ety T a x) (fun '(b, r) => Ok ([], [Cell ty_ordinary (b ++ fst (rty T a x)) (r ++ snd (rty T a x))]))
     | FMaybe g =>
         match x with
         | PNone => ok_bits [false]
         | _ => bind (enc_field g x) (fun '(b, r) => Ok (true :: b, r))
         end
     | FDict n vf =>
-        (* hme_empty$0 | hme_root$1 root:^(Hashmap n X): the canonical Patricia tree (Spec/Hashmap.v) of
-           the n-bit keys and the encoded values, with the reference label kinds *)
+        (* hme_empty$0 | hme_root$1 root:^(Hashmap n X) *)
         match x with
         | PNone => ok_bits [false]
         | PDict kvs =>
-            bind (mapM (fun kv => rmap (fun p => (enc n (fst kv), p)) (enc_field vf (snd kv))) kvs)
-              (fun src =>
-               match s_patricia (S n) src with
-               | Some e =>
-                   let t := canon_kinds (canon_vtree e) n in
-                   if vtree_ok t n then Ok ([true], [cell_of t n]) else Err ECell
-               | None => Err EDict
-               end)
+            bind (enc_kvs n (enc_field vf) kvs) (fun src =>
+            bind (dict_tree n src) (fun t => Ok ([true], [cell_of t n])))
         | _ => Err EType
         end
     | FConst _ => ok_bits []
+    | FEither l r =>
+        if ch x then bind (enc_field r x) (fun '(b, rf) => Ok (true :: b, rf))
+        else bind (enc_field l x) (fun '(b, rf) => Ok (false :: b, rf))
+    | FRest => match x with PCell _ => Ok ([], []) | _ => Err EType end
+    | FHashmap n vf =>
+        (* the root edge of the tree, inline *)
+        match x with
+        | PDict kvs =>
+            bind (enc_kvs n (enc_field vf) kvs) (fun src =>
+            bind (dict_tree n src) (fun t => let 'Cell _ b r := cell_of t n in Ok (b, r)))
+        | _ => Err EType
+        end
+    | FDictVals n vf =>
+        match x with
+        | PList [] => ok_bits [false]
+        | PList vals =>
+            bind (enc_kvs n (enc_field vf) (index_kvs 0 vals)) (fun src =>
+            bind (dict_tree n src) (fun t => Ok ([true], [cell_of t n])))
+        | _ => Err EType
+        end
+    | FAugDict n vf xf =>
+        (* the root edge inline; as many extras as the canonical tree of the keys has nodes *)
+        match x with
+        | PAugDict kvs extras =>
+            bind (enc_kvs n (enc_field vf) kvs) (fun src =>
+            bind (mapM (enc_field xf) extras) (fun exs =>
+            match s_patricia (S n) src with
+            | Some e =>
+                match aug_cell e n exs with
+                | Some (Cell _ b r, []) => Ok (b, r)
+                | _ => Err ECell
+                end
+            | None => Err EDict
+            end))
+        | _ => Err EType
+        end
+    | FAugDictE _ _ _ => Err EOther
     end.
 
   Fixpoint enc_fields (look : string -> pv) (fs : list (string * fty)) : enc_res :=
@@ -247,22 +369,49 @@ Section Enc.
         bind (enc_items look r) (fun '(b2, r2) => Ok (b1 ++ b2, r1 ++ r2)))
     end.
 
-  Definition enc_ctor (c : ctor) (v : pv) : enc_res :=
-    bind (enc_items (ctor_look c v) (c_items c)) (fun '(b, r) => Ok (c_tag c ++ b, r)).
+  (* a peeked tag is written by the type the constructor stands for *)
+  Definition own_tag (m : tagmode) (c : ctor) : list bool :=
+    match m with TagPeek => [] | _ => c_tag c end.
+
+  Definition enc_ctor (m : tagmode) (c : ctor) (v : pv) : enc_res :=
+    bind (enc_items (ctor_look c v) (c_items c)) (fun '(b, r) => Ok (own_tag m c ++ b, r)).
 
   Definition enc_layout (L : tlayout) (v : pv) : enc_res :=
     match find (fun c => ctor_matches c v) (t_ctors L) with
-    | Some c => enc_ctor c v
+    | Some c => enc_ctor (t_mode L) c v
     | None => Err EType
+    end.
+
+  (* the inline remainder of a value: the cell its last field keeps, when that field is X = Any inline *)
+  Fixpoint rest_field (f : fty) (x : pv) : tail :=
+    match f with
+    | FRest => match x with PCell (Cell _ b r) => (b, r) | _ => no_tail end
+    | FMaybe g => match x with PNone => no_tail | _ => rest_field g x end
+    | FEither l r => if ch x then rest_field r x else rest_field l x
+    | _ => no_tail
+    end.
+  Fixpoint rest_items (look : string -> pv) (its : list item) : tail :=
+    match its with
+    | [] => no_tail
+    | [INamed nm f] => rest_field f (look nm)
+    | _ :: r => rest_items look r
+    end.
+  Definition rest_layout (L : tlayout) (v : pv) : tail :=
+    match find (fun c => ctor_matches c v) (t_ctors L) with
+    | Some c => rest_items (ctor_look c v) (c_items c)
+    | None => no_tail
     end.
 End Enc.
 
-Fixpoint enc_type (st : stable) (d : nat) (T : string) (a : list Z) (v : pv) : enc_res :=
+Definition rest_type (ch : pv -> bool) (st : stable) (T : string) (a : list Z) (v : pv) : tail :=
+  match slookup st T a with Some L => rest_layout ch L v | None => no_tail end.
+
+Fixpoint enc_type (ch : pv -> bool) (st : stable) (d : nat) (T : string) (a : list Z) (v : pv) : enc_res :=
   match d with
   | O => Err ERecursion
   | S d' => match slookup st T a with
             | None => Err EOther
-            | Some L => enc_layout (enc_type st d') L v
+            | Some L => enc_layout ch (enc_type ch st d') (rest_type ch st) L v
             end
   end.
 
@@ -283,10 +432,18 @@ Fixpoint ascending (l : list Z) : bool :=
 Fixpoint all_of {A} (P : A -> Prop) (l : list A) : Prop :=
   match l with [] => True | x :: r => P x /\ all_of P r end.
 
-Section Wt.
-  Variable wty : string -> list Z -> pv -> Prop.
+(* what is known of the bits and references that follow a value in its (ordinary) cell: nothing, or
+   exactly these.  Only FRest (the value is what follows) and t_snap (the value keeps the cell it was
+   parsed from) depend on it. *)
+Definition ctx := option tail.
 
-  Fixpoint wt_field (f : fty) (x : pv) : Prop :=
+Section Wt.
+  Variable ch : pv -> bool.
+  Variable wty : string -> list Z -> ctx -> pv -> Prop.
+  Variable ety : string -> list Z -> pv -> enc_res.
+  Variable rty : string -> list Z -> pv -> tail.
+
+  Fixpoint wt_field (f : fty) (x : pv) (c : ctx) : Prop :=
     match f with
     | FUint n => match x with PInt z => in_uint (Z.of_nat n) z = true | _ => False end
     | FUintLe m => match x with PInt z => 0 <= z <= Z.of_nat m | _ => False end
@@ -304,26 +461,51 @@ Section Wt.
     | FAddrExt => match x with PAddr a => addr_ok a = true /\ addr_ext a = true | _ => False end
     | FCell => match x with PCell _ => True | _ => False end
     | FMaybeCell => match x with PNone | PCell _ => True | _ => False end
-    | FType T a | FRefType T a => wty T a x
-    | FMaybe g => match x with PNone => True | _ => wt_field g x end
+    | FType T a => wty T a c x
+    | FRefType T a => wty T a (Some (rty T a x)) x        (* the cell of ^T ends with the value *)
+    | FMaybe g => match x with PNone => True | _ => wt_field g x c end
     | FDict n vf =>
         (* None for the empty dictionary, else a Python dict in ascending key order *)
         match x with
         | PNone => True
         | PDict kvs =>
             kvs <> [] /\ ascending (map fst kvs) = true /\
-            all_of (fun kv => 0 <= fst kv < 2 ^ Z.of_nat n /\ wt_field vf (snd kv)) kvs
+            all_of (fun kv => 0 <= fst kv < 2 ^ Z.of_nat n /\ wt_field vf (snd kv) None) kvs
         | _ => False
         end
-    | FConst c => x = cval_pv c
+    | FConst cv => x = cval_pv cv
+    | FEither l r => if ch x then wt_field r x c else wt_field l x c
+    | FRest => match c with Some (tb, tr) => x = PCell (Cell ty_ordinary tb tr) | None => False end
+    | FHashmap n vf =>
+        match x with
+        | PDict kvs =>
+            kvs <> [] /\ ascending (map fst kvs) = true /\
+            all_of (fun kv => 0 <= fst kv < 2 ^ Z.of_nat n /\ wt_field vf (snd kv) None) kvs
+        | _ => False
+        end
+    | FDictVals n vf =>
+        match x with
+        | PList vals =>
+            Z.of_nat (List.length vals) <= 2 ^ Z.of_nat n /\ all_of (fun v => wt_field vf v None) vals
+        | _ => False
+        end
+    | FAugDict n vf xf =>
+        match x with
+        | PAugDict kvs extras =>
+            kvs <> [] /\ ascending (map fst kvs) = true /\
+            all_of (fun kv => 0 <= fst kv < 2 ^ Z.of_nat n /\ wt_field vf (snd kv) None) kvs /\
+            all_of (fun ex => wt_field xf ex None) extras
+        | _ => False
+        end
+    | FAugDictE _ _ _ => False
     end.
 
   Fixpoint wt_fields (look : string -> pv) (fs : list (string * fty)) : Prop :=
-    match fs with [] => True | (nm, f) :: r => wt_field f (look nm) /\ wt_fields look r end.
+    match fs with [] => True | (nm, f) :: r => wt_field f (look nm) None /\ wt_fields look r end.
 
-  Definition wt_item (look : string -> pv) (it : item) : Prop :=
+  Definition wt_item (look : string -> pv) (c : ctx) (it : item) : Prop :=
     match it with
-    | INamed nm f => wt_field f (look nm)
+    | INamed nm f => wt_field f (look nm) c
     | IGroup fs => wt_fields look fs
     | IConst _ _ => True
     | INamedHex nm hexnm n =>
@@ -334,39 +516,60 @@ Section Wt.
     | IGuard op a b => guard_holds look op a b = true
     end.
 
-  Fixpoint wt_items (look : string -> pv) (its : list item) : Prop :=
-    match its with [] => True | it :: r => wt_item look it /\ wt_items look r end.
+  (* what follows the last item is what follows the value *)
+  Fixpoint wt_items (look : string -> pv) (c : ctx) (its : list item) : Prop :=
+    match its with
+    | [] => True
+    | it :: r => wt_item look (match r with [] => c | _ => None end) it /\ wt_items look c r
+    end.
 
   (* the value is exactly the object the Python constructor builds: the class, and the constant and
      loaded attributes in name order *)
-  Definition wt_ctor (c : ctor) (v : pv) : Prop :=
+  Definition wt_ctor (snap : option string) (c : ctor) (cx : ctx) (v : pv) : Prop :=
     match c_ret c with
     | RNone => v = PNone
     | RObj cls consts =>
-        v = PObj cls (map (fun nm => (nm, field_of v nm)) (ctor_names consts (c_items c)))
-    | RSame => True
-    end /\ wt_items (ctor_look c v) (c_items c).
+        v = PObj cls (map (fun nm => (nm, field_of v nm)) (ctor_names consts snap (c_items c)))
+    | RSame | RSameCls _ => True
+    end /\ wt_items (ctor_look c v) cx (c_items c).
 
-  Definition wt_layout (L : tlayout) (v : pv) : Prop :=
+  (* the snapshot attribute holds the cell the value is parsed from: its encoding and what follows *)
+  Definition snap_ok (L : tlayout) (cx : ctx) (v : pv) : Prop :=
+    match t_snap L with
+    | None => True
+    | Some nm =>
+        match cx, enc_layout ch ety rty L v with
+        | Some (tb, tr), Ok (bits, refs) => field_of v nm = PCell (Cell ty_ordinary (bits ++ tb) (refs ++ tr))
+        | _, _ => False
+        end
+    end.
+
+  Definition wt_layout (L : tlayout) (cx : ctx) (v : pv) : Prop :=
     match find (fun c => ctor_matches c v) (t_ctors L) with
-    | Some c => wt_ctor c v
+    | Some c => wt_ctor (t_snap L) c cx v /\ snap_ok L cx v
     | None => False
     end.
 End Wt.
 
-Fixpoint wt_type (st : stable) (d : nat) (T : string) (a : list Z) (v : pv) : Prop :=
+Fixpoint wt_type (ch : pv -> bool) (st : stable) (d : nat) (T : string) (a : list Z) (cx : ctx) (v : pv) : Prop :=
   match d with
   | O => False
   | S d' => match slookup st T a with
             | None => False
-            | Some L => wt_layout (wt_type st d') L v
+            | Some L => wt_layout ch (wt_type ch st d') (enc_type ch st d') (rest_type ch st) L cx v
             end
   end.
 
 (* nesting depth of named types explored by [wt] and [encode] *)
 Definition tdepth : nat := 12.
-Definition wt (st : stable) (L : tlayout) (v : pv) : Prop := wt_layout (wt_type st tdepth) L v.
-Definition encode (st : stable) (L : tlayout) (v : pv) : enc_res := enc_layout (enc_type st tdepth) L v.
+Definition wt_in (ch : pv -> bool) (st : stable) (L : tlayout) (cx : ctx) (v : pv) : Prop :=
+  wt_layout ch (wt_type ch st tdepth) (enc_type ch st tdepth) (rest_type ch st) L cx v.
+Definition encode_ch (ch : pv -> bool) (st : stable) (L : tlayout) (v : pv) : enc_res :=
+  enc_layout ch (enc_type ch st tdepth) (rest_type ch st) L v.
+(* for the types without Either / Any / snapshot: no choice to make, nothing known of what follows *)
+Definition ch_ref : pv -> bool := fun _ => true.
+Definition wt (st : stable) (L : tlayout) (v : pv) : Prop := wt_in ch_ref st L None v.
+Definition encode (st : stable) (L : tlayout) (v : pv) : enc_res := encode_ch ch_ref st L v.
 
 (* ------------------------------------------------------------------------------------------------ *)
 (* The compiler to decision trees                                                                    *)
@@ -376,9 +579,12 @@ Definition encode (st : stable) (L : tlayout) (v : pv) : enc_res := enc_layout (
 Definition kont := nat -> nat -> list (string * dexpr) -> dtree.
 
 Definition chunk_op (c : chunk) : dop :=
-  match c with CkBits n => OBits n | CkUint n => OUint n | CkBytes k => OBytes k end.
+  match c with CkBits n => OBits n | CkUint n => OUint n | CkBytes k => OBytes k | CkBit => OBit end.
 Definition chunk_width (c : chunk) : nat :=
-  match c with CkBits n | CkUint n => n | CkBytes k => (8 * k)%nat end.
+  match c with CkBits n | CkUint n => n | CkBytes k => (8 * k)%nat | CkBit => 1%nat end.
+
+(* the value of a dictionary leaf: the tree ends by returning the only attribute *)
+Definition kret : kont := fun _ _ a => DRet (match a with [(_, e)] => e | _ => ENone end).
 
 Fixpoint compile_field (f : fty) (nm : string) (sid n ns : nat) (acc : list (string * dexpr)) (k : kont)
   : dtree :=
@@ -407,10 +613,20 @@ Fixpoint compile_field (f : fty) (nm : string) (sid n ns : nat) (acc : list (str
   | FMaybe g =>
       DOp sid OBit (DIf n 0 (k (S n) ns (acc ++ [(nm, ENone)])) (compile_field g nm sid (S n) ns acc k))
   | FDict w vf =>
-      DOp sid (ODict w (compile_field vf ""%string 0 0 1 []
-                          (fun _ _ a => DRet (match a with [(_, e)] => e | _ => ENone end))))
+      DOp sid (ODict w (compile_field vf ""%string 0 0 1 [] kret))
         (DIf n 0 (k (S n) ns (acc ++ [(nm, ENone)])) (k (S n) ns (acc ++ [(nm, EVar n)])))
   | FConst c => k n ns (acc ++ [(nm, cval_expr c)])
+  | FEither l r =>
+      DOp sid OBit (DIf n 0 (compile_field l nm sid (S n) ns acc k) (compile_field r nm sid (S n) ns acc k))
+  | FRest => simple OToCell
+  | FHashmap w vf => simple (OHashmap w (compile_field vf ""%string 0 0 1 [] kret))
+  | FDictVals w vf =>
+      DOp sid (ODict w (compile_field vf ""%string 0 0 1 [] kret))
+        (DIf n 0 (k (S n) ns (acc ++ [(nm, EList [])])) (k (S n) ns (acc ++ [(nm, ESortedValues (EVar n))])))
+  | FAugDict w vf xf =>
+      simple (OAugDict w (compile_field vf ""%string 0 0 1 [] kret) (compile_field xf ""%string 0 0 1 [] kret))
+  | FAugDictE w vf xf =>
+      simple (OAugDictE w (compile_field vf ""%string 0 0 1 [] kret) (compile_field xf ""%string 0 0 1 [] kret))
   end.
 
 Fixpoint compile_fields (fs : list (string * fty)) (sid n ns : nat) (acc : list (string * dexpr)) (k : kont)
@@ -461,16 +677,16 @@ Fixpoint compile_items (its : list item) (sid n ns : nat) (acc : list (string * 
       DGuard op (gexpr_of acc a) (gexpr_of acc b) DFail (compile_items r sid n ns acc k)
   end.
 
-Definition ret_expr (r : cret) (acc : list (string * dexpr)) : dexpr :=
+Definition ret_expr (r : cret) (snap acc : list (string * dexpr)) : dexpr :=
   match r with
   | RNone => ENone
-  | RObj cls consts => EObj cls (sort_by_name (map (fun '(nm, cv) => (nm, cval_expr cv)) consts ++ acc))
-  | RSame => match acc with [(_, e)] => e | _ => ENone end
+  | RObj cls consts => EObj cls (sort_by_name (map (fun '(nm, cv) => (nm, cval_expr cv)) consts ++ snap ++ acc))
+  | RSame | RSameCls _ => match acc with [(_, e)] => e | _ => ENone end
   end.
 
-(* the body of a constructor, entered with n variables bound *)
-Definition compile_ctor (c : ctor) (n : nat) : dtree :=
-  compile_items (c_items c) 0 n 1 [] (fun _ _ acc => DRet (ret_expr (c_ret c) acc)).
+(* the body of a constructor, entered with n variables bound; snap: the snapshot attribute, if any *)
+Definition compile_ctor (snap : list (string * dexpr)) (c : ctor) (n : nat) : dtree :=
+  compile_items (c_items c) 0 n 1 [] (fun _ _ acc => DRet (ret_expr (c_ret c) snap acc)).
 
 (* the binary trie of the constructor tags, tested most significant bit first *)
 Definition tagged := list (list bool * ctor).
@@ -485,44 +701,115 @@ Definition find_done (cs : tagged) : option ctor :=
   | None => None
   end.
 
-(* one load_bit per level *)
-Fixpoint trie_bits (fuel : nat) (cs : tagged) (n : nat) : dtree :=
-  match fuel with
-  | O => DFail
-  | S f =>
-      match cs with
-      | [] => DFail
-      | _ => match find_done cs with
-             | Some c => compile_ctor c n
-             | None => DOp 0 OBit (DIf n 0 (trie_bits f (sub_tags false cs) (S n))
-                                           (trie_bits f (sub_tags true cs) (S n)))
-             end
-      end
-  end.
+Section Tries.
+  Variable snap : list (string * dexpr).
 
-(* the tag was loaded at once as variable v; bit i is examined next *)
-Fixpoint trie_chunk (fuel : nat) (cs : tagged) (v i : nat) : dtree :=
-  match fuel with
-  | O => DFail
-  | S f =>
-      match cs with
-      | [] => DFail
-      | _ => match find_done cs with
-             | Some c => compile_ctor c (S v)
-             | None => DIf v i (trie_chunk f (sub_tags false cs) v (S i))
-                               (trie_chunk f (sub_tags true cs) v (S i))
-             end
-      end
-  end.
+  (* one load_bit per level *)
+  Fixpoint trie_bits (fuel : nat) (cs : tagged) (n : nat) : dtree :=
+    match fuel with
+    | O => DFail
+    | S f =>
+        match cs with
+        | [] => DFail
+        | _ => match find_done cs with
+               | Some c => compile_ctor snap c n
+               | None => DOp 0 OBit (DIf n 0 (trie_bits f (sub_tags false cs) (S n))
+                                             (trie_bits f (sub_tags true cs) (S n)))
+               end
+        end
+    end.
+
+  (* the tag was loaded at once as variable v; bit i is examined next *)
+  Fixpoint trie_chunk (fuel : nat) (cs : tagged) (v i : nat) : dtree :=
+    match fuel with
+    | O => DFail
+    | S f =>
+        match cs with
+        | [] => DFail
+        | _ => match find_done cs with
+               | Some c => compile_ctor snap c (S v)
+               | None => DIf v i (trie_chunk f (sub_tags false cs) v (S i))
+                                 (trie_chunk f (sub_tags true cs) v (S i))
+               end
+        end
+    end.
+
+  (* the tag is loaded in pieces.  pend: the (variable, bit) pairs loaded and not yet tested; rest: the
+     pieces not yet loaded; n variables are bound.  A piece is loaded when no remaining constructor can be
+     recognised with the pending bits alone. *)
+  Definition can_finish (cs : tagged) (p : nat) : bool :=
+    existsb (fun '(t, _) => (List.length t <=? p)%nat) cs.
+  Definition chunk_srcs (v w : nat) : list (nat * nat) := map (fun i => (v, i)) (seq 0 w).
+  Fixpoint trie_multi (fuel : nat) (cs : tagged) (pend : list (nat * nat)) (rest : list chunk) (n : nat)
+    : dtree :=
+    match fuel with
+    | O => DFail
+    | S f =>
+        let load :=
+          match rest with
+          | [] => DFail
+          | ck :: rest' =>
+              DOp 0 (chunk_op ck) (trie_multi f cs (pend ++ chunk_srcs n (chunk_width ck)) rest' (S n))
+          end in
+        match find_done cs with
+        | Some c => compile_ctor snap c n
+        | None =>
+            match pend with
+            | (v, i) :: pend' =>
+                if can_finish cs (List.length pend)
+                then DIf v i (trie_multi f (sub_tags false cs) pend' rest n)
+                             (trie_multi f (sub_tags true cs) pend' rest n)
+                else load
+            | [] => load
+            end
+        end
+    end.
+
+  (* compare the bits of variable v with the expected ones: all equal / some different *)
+  Fixpoint match_bits (v i : nat) (bits : list bool) (same other : dtree) : dtree :=
+    match bits with
+    | [] => same
+    | b :: r => if b then DIf v i other (match_bits v (S i) r same other)
+                else DIf v i (match_bits v (S i) r same other) other
+    end.
+  (* the tags are looked at one after the other; the last constructor is the default *)
+  Fixpoint peek_list (cs : tagged) (n : nat) : dtree :=
+    match cs with
+    | [] => DFail
+    | (t, c) :: r =>
+        match r with
+        | [] => compile_ctor snap c n
+        | _ => DOp 0 (OPeekBits (List.length t))
+                 (match_bits n 0 t (compile_ctor snap c (S n)) (peek_list r (S n)))
+        end
+    end.
+End Tries.
 
 Definition tag_fuel (cs : list ctor) : nat := S (fold_right (fun c m => Nat.max (List.length (c_tag c)) m) 0%nat cs).
 Definition tagged_of (cs : list ctor) : tagged := map (fun c => (c_tag c, c)) cs.
 
-Definition compile (L : tlayout) : dtree :=
+Definition snap_acc (L : tlayout) : list (string * dexpr) :=
+  match t_snap L with Some nm => [(nm, EVar 0)] | None => [] end.
+Definition snap_n (L : tlayout) : nat := match t_snap L with Some _ => 1%nat | None => 0%nat end.
+
+Definition compile_tag (L : tlayout) : dtree :=
+  let n0 := snap_n L in
+  let cs := tagged_of (t_ctors L) in
   match t_mode L with
-  | TagBitwise => trie_bits (tag_fuel (t_ctors L)) (tagged_of (t_ctors L)) 0
-  | TagChunk c => DOp 0 (chunk_op c) (trie_chunk (tag_fuel (t_ctors L)) (tagged_of (t_ctors L)) 0 0)
+  | TagBitwise => trie_bits (snap_acc L) (tag_fuel (t_ctors L)) cs n0
+  | TagChunk c => DOp 0 (chunk_op c) (trie_chunk (snap_acc L) (tag_fuel (t_ctors L)) cs n0 0)
+  | TagChunks cks => trie_multi (snap_acc L) (tag_fuel (t_ctors L) + List.length cks) cs [] cks n0
+  | TagPeek => peek_list (snap_acc L) cs n0
   end.
+
+Definition compile (L : tlayout) : dtree :=
+  let body :=
+    match t_special L with
+    | SpNo => compile_tag L
+    | SpNone => DIfSpecial 0 (compile_tag L) (DRet ENone)
+    | SpCell => DIfSpecial 0 (compile_tag L) (DOp 0 OToCell (DRet (EVar (snap_n L))))
+    end in
+  match t_snap L with Some _ => DOp 0 OToCell body | None => body end.
 
 Definition compile_table (st : stable) : table := map (fun '(n, a, L) => (n, a, compile L)) st.
 
@@ -540,7 +827,7 @@ Fixpoint list_beq (a b : list bool) : bool :=
 (* what the bit tests see of a chunk that was loaded from exactly these bits *)
 Definition chunk_view (c : chunk) (bits : list bool) : list bool :=
   match c with
-  | CkBits _ => bits
+  | CkBits _ | CkBit => bits
   | CkUint n => to_bits n (of_bits bits)
   | CkBytes _ => bytes_to_bits (bits_to_bytes bits)
   end.
@@ -553,7 +840,9 @@ Fixpoint wf_fty (f : fty) : bool :=
   | FUintLe m => (1 <=? m)%nat
   | FUintLt m | FVarUint m | FVarInt m => (2 <=? m)%nat
   | FMaybe g => wf_fty g
-  | FDict n vf => (1 <=? n)%nat && (n <=? 1023)%nat && wf_fty vf
+  | FDict n vf | FHashmap n vf | FDictVals n vf => (1 <=? n)%nat && (n <=? 1023)%nat && wf_fty vf
+  | FAugDict n vf xf => (1 <=? n)%nat && (n <=? 1023)%nat && wf_fty vf && wf_fty xf
+  | FEither l r => wf_fty l && wf_fty r
   | _ => true
   end.
 Definition wf_item (it : item) : bool :=
@@ -573,14 +862,28 @@ Fixpoint guards_bound (bound : list string) (its : list item) : bool :=
       match it with IGuard _ a b => gref_bound bound a && gref_bound bound b | _ => true end
       && guards_bound (bound ++ item_names it) r
   end.
-Definition wf_ctor (m : tagmode) (c : ctor) : bool :=
+(* pieces a tag may be read in: the widths a tag may have are the partial sums of the piece widths *)
+Definition piece_ok (c : chunk) : bool :=
+  match c with CkBits n => (1 <=? n)%nat | CkBit => true | _ => false end.
+Fixpoint tag_aligned (len : nat) (cks : list chunk) : bool :=
+  match cks with
+  | [] => false
+  | ck :: r => (len =? chunk_width ck)%nat || ((chunk_width ck <? len)%nat && tag_aligned (len - chunk_width ck) r)
+  end.
+Definition wf_ctor (m : tagmode) (snap : option string) (c : ctor) : bool :=
   forallb wf_item (c_items c) && guards_bound [] (c_items c)
   && match c_ret c with
      | RNone => match c_items c with [] => true | _ => false end
      | RObj _ _ => true
-     | RSame => match c_items c with [INamed _ _] => true | _ => false end
+     | RSame | RSameCls _ => match c_items c with [INamed _ _] => true | _ => false end
      end
-  && match m with TagBitwise => true | TagChunk ck => chunk_ok ck (c_tag c) end.
+  && match snap, c_ret c with Some _, RObj _ _ | None, _ => true | _, _ => false end
+  && match m with
+     | TagBitwise => true
+     | TagChunk ck => chunk_ok ck (c_tag c)
+     | TagChunks cks => forallb piece_ok cks && tag_aligned (List.length (c_tag c)) cks
+     | TagPeek => match c_items c with [INamed _ (FType _ _)] => true | _ => false end
+     end.
 
 (* the tags form a prefix code: along the trie, a finished tag is alone *)
 Fixpoint trie_ok (fuel : nat) (cs : tagged) : bool :=
@@ -596,9 +899,39 @@ Fixpoint trie_ok (fuel : nat) (cs : tagged) : bool :=
       end
   end.
 
+(* peeked tags: an earlier (shorter or equal) tag never matches the beginning of a later one *)
+Fixpoint peek_order_ok (cs : list ctor) : bool :=
+  match cs with
+  | [] => true
+  | c :: r =>
+      forallb (fun c' => (List.length (c_tag c) <=? List.length (c_tag c'))%nat
+                         && negb (list_beq (firstn (List.length (c_tag c)) (c_tag c')) (c_tag c))) r
+      && peek_order_ok r
+  end.
+
 Definition wf_layout (L : tlayout) : bool :=
-  forallb (wf_ctor (t_mode L)) (t_ctors L) && trie_ok (tag_fuel (t_ctors L)) (tagged_of (t_ctors L)).
-Definition wf_table (st : stable) : bool := forallb (fun '(_, _, L) => wf_layout L) st.
+  forallb (wf_ctor (t_mode L) (t_snap L)) (t_ctors L)
+  && match t_mode L with
+     | TagPeek => peek_order_ok (t_ctors L)
+     | _ => trie_ok (tag_fuel (t_ctors L)) (tagged_of (t_ctors L))
+     end.
+
+(* a peeked tag begins every encoding of the type the constructor stands for *)
+Definition peek_ctor_ok (st : stable) (c : ctor) : bool :=
+  match c_items c with
+  | [INamed _ (FType T a)] =>
+      match slookup st T a with
+      | Some L' =>
+          match t_mode L' with TagPeek => false | _ => true end
+          && forallb (fun c' => list_beq (firstn (List.length (c_tag c)) (c_tag c')) (c_tag c)) (t_ctors L')
+      | None => false
+      end
+  | _ => false
+  end.
+Definition peek_ok (st : stable) (L : tlayout) : bool :=
+  match t_mode L with TagPeek => forallb (peek_ctor_ok st) (t_ctors L) | _ => true end.
+
+Definition wf_table (st : stable) : bool := forallb (fun '(_, _, L) => wf_layout L && peek_ok st L) st.
 
 (* ------------------------------------------------------------------------------------------------ *)
 (* Fuel: an upper bound of the number of [run] steps, value independent                               *)
@@ -611,7 +944,10 @@ Section Need.
     | FRefType T a => S (S (nty T a))
     | FMaybe g => S (S (need_field g))
     | FMaybeCell => 2
-    | FDict _ vf => 3 + need_field vf
+    | FDict _ vf | FDictVals _ vf => 3 + need_field vf
+    | FHashmap _ vf => 2 + need_field vf
+    | FAugDict _ vf xf => 3 + need_field vf + need_field xf
+    | FEither l r => 2 + Nat.max (need_field l) (need_field r)
     | FConst _ => 0
     | _ => 1
     end.
@@ -626,8 +962,15 @@ Section Need.
     end.
   Definition need_items (its : list item) : nat := fold_right (fun it m => (need_item it + m)%nat) 0%nat its.
   Definition need_ctor (c : ctor) : nat := S (need_items (c_items c)).
+  Definition need_tag (L : tlayout) : nat :=
+    match t_mode L with
+    | TagBitwise | TagChunk _ => (2 * tag_fuel (t_ctors L) + 1)%nat
+    | TagChunks cks => (2 * tag_fuel (t_ctors L) + List.length cks + 1)%nat
+    | TagPeek => (List.length (t_ctors L) * S (tag_fuel (t_ctors L)))%nat
+    end.
   Definition need_layout (L : tlayout) : nat :=
-    (2 * tag_fuel (t_ctors L) + 1 + fold_right (fun c m => Nat.max (need_ctor c) m) 0 (t_ctors L))%nat.
+    (need_tag L + fold_right (fun c m => Nat.max (need_ctor c) m) 0 (t_ctors L)
+     + snap_n L + match t_special L with SpNo => 0 | _ => 1 end)%nat.
 End Need.
 Fixpoint need_type (st : stable) (d : nat) (T : string) (a : list Z) : nat :=
   match d with
@@ -646,7 +989,9 @@ Fixpoint fty_refs (f : fty) : list (string * list Z) :=
   match f with
   | FType T a | FRefType T a => [(T, a)]
   | FMaybe g => fty_refs g
-  | FDict _ v => fty_refs v
+  | FDict _ v | FHashmap _ v | FDictVals _ v => fty_refs v
+  | FEither l r => fty_refs l ++ fty_refs r
+  | FAugDict _ v x | FAugDictE _ v x => fty_refs v ++ fty_refs x
   | _ => []
   end.
 Definition item_refs (it : item) : list (string * list Z) :=
